@@ -289,6 +289,9 @@ def run(tier, seed, replay=None, keep=False):
     t0 = time.time()
     work = vlib.workdir("c07-%d" % os.getpid())
     try:
+        if replay and json.load(open(replay)).get("scenario", {}).get("kind") == "solver":
+            from checks import solver_common as scx
+            return scx.replay(PROP, json.load(open(replay)), tier, seed, work)
         methods = base.methods_for(replay)
         base.use_private_tmp(work)
         gen = tg.generate(methods=tg.METHODS)
@@ -352,6 +355,15 @@ def run(tier, seed, replay=None, keep=False):
                 detail += " -- " + info["note"]
             viols.append(vlib.Violation(PROP, sig, detail, {"method": method, "coef": coef, "dir": dn, "via": via, "dist": dist, "bound": bound,
                                                              "got": repr(info.get("got")), "want": str(info.get("want"))}))
+        # restart probes on recorded low-level runs (Trace_Stepper clause C07/restart): the interpolant handed out for a step
+        # equals the one a freshly built solver constructs for that step - on every step of runs with rejections and of
+        # runs longer than 1000 steps (history-dependent buffers)
+        restart_cov = {}
+        if not replay:
+            from checks import solver_common as scx
+            sviol, scov, _a = scx.run_for(PROP, tier, seed, work)
+            viols += sviol
+            restart_cov = {"runs": scov.get("runs"), "trace_lines": scov.get("trace_lines"), "per_family": scov.get("per_family")}
         n_new, n_known = vlib.report(PROP, viols)
         nontriv = {(row["method"], row["coef"]) for row, info in zip(facts.rows, facts.info)
                    if row["via"] != "source" and not str(info.get("want", "0")).startswith("0 =")}
@@ -380,6 +392,7 @@ def run(tier, seed, replay=None, keep=False):
             "states": r.distinct, "transitions": r.generated, "traces_validated_against_impl": len(jobs),
             "probe_runs": len(jobs), "source_constants_compared": nsrc,
             "non_conforming_records": len(bad), "drift": len(drift), "methods": methods, "exhaustive": True,
+            "restart_probes": restart_cov,
         }
         vlib.write_evidence(PROP, tier, seed, "proof", cov, ASSUMPTIONS, time.time() - t0, n_new)
         vlib.log(f"[C07] {len(facts.rows)} records ({len(jobs)} probe runs, {len(thetas)} theta points, {nsrc} source constants), "
